@@ -206,7 +206,11 @@ func (rc *refConn) send(h rfc8907.Header, clear []byte, wellFormed bool) stepRes
 // stuckServerFrame looks, after a watchdog, for a quiescent-state witness of a server
 // goroutine that is stuck while processing a request: a goroutine with a tacquito frame
 // parked on a lock. It returns the first tacquito frame of that goroutine, or "".
-func stuckServerFrame() string {
+func stuckServerFrame() string { return stuckFrame(false) }
+
+// stuckFrame: with chans, goroutines parked on a channel send / receive count as well (used after a
+// cancellation, when nothing in tacquito has a reason to wait on a channel for seconds).
+func stuckFrame(chans bool) string {
 	parked := func() map[string]string {
 		buf := make([]byte, 8<<20)
 		buf = buf[:runtime.Stack(buf, true)]
@@ -219,7 +223,8 @@ func stuckServerFrame() string {
 			if !strings.Contains(g, "facebookincubator/tacquito") {
 				continue
 			}
-			if strings.Contains(head, "Lock]") || strings.Contains(head, "Lock,") {
+			if strings.Contains(head, "Lock]") || strings.Contains(head, "Lock,") ||
+				chans && (strings.Contains(head, "[chan send") || strings.Contains(head, "[chan receive")) {
 				// "goroutine 123 [sync.RWMutex.Lock]:" -> id 123
 				f := strings.Fields(head)
 				if len(f) >= 2 {
